@@ -26,7 +26,15 @@ RULE = ("generated template sets (inheritance chains, include/import sets, state
         "side (DictLoader vs ModuleLoader) executes the same random history of 6..12 operations "
         "{get_template+render (few names repeated), get_template(lib).module.tick(), render a template "
         "object obtained earlier again, env.cache.clear()}; the sequences of (text | exception, which "
-        "of the template objects seen so far get_template returned) must be equal. distinct = "
+        "of the template objects seen so far get_template returned) must be equal. "
+        "REBUILDS IN PLACE (every 6th set, modes rotating): the set plus a probe template is written to "
+        "disk, compiled from a FileSystemLoader into a target, compared; then every second source file is "
+        "edited with its mtime forced one hour back / kept equal / left to advance, the set is compiled AGAIN "
+        "into the SAME target (same or fresh environment) and a fresh ModuleLoader must render every template "
+        "like the current sources. LOOK-ALIKE NAMES (every 5th set): one set of 22 templates whose names are "
+        "distinct strings that differ only by Unicode normal form, case, compatibility characters, blanks, "
+        "'.' vs '_' or redundant path segments, each including its neighbour: every name must stay a template "
+        "of its own after precompiling. distinct = "
         "distinct set shapes x packaging mode + stateful (mode, carriers, rename)")
 LEVEL_TEXT = "held on the generated template sets only"
 ASSUMPTIONS = ["the precompiling and the loading environment share the same options and extensions",
@@ -50,7 +58,11 @@ FLOORS = {
                            "stateful_histories_where_state_shows": 90,
                            "stateful_histories_with_a_template_served_again": 55,
                            "stateful_sets_dir": 6, "stateful_sets_deflated": 6,
-                           "stateful_sets_stored": 6, "sets_with_non_ascii_identifiers": 12}},
+                           "stateful_sets_stored": 6, "sets_with_non_ascii_identifiers": 12,
+                           "rebuild_histories": 35, "rebuild_compares": 250, "rebuild_mode_dir": 10,
+                           "rebuild_mode_deflated": 10, "rebuild_mode_stored": 10,
+                           "rebuild_edit_mtime_back": 20, "rebuild_edit_mtime_equal": 20,
+                           "lookalike_name_compares": 900}},
     "thorough": {"evaluations": 40000, "distinct": 4000,
                  "counters": {"mode_dir": 3000, "mode_deflated": 3000, "mode_stored": 3000,
                               "templates_compared": 40000, "sets_with_inheritance_or_import": 3000,
@@ -62,7 +74,11 @@ FLOORS = {
                               "stateful_histories_where_state_shows": 1800,
                               "stateful_histories_with_a_template_served_again": 1100,
                               "stateful_sets_dir": 120, "stateful_sets_deflated": 120,
-                              "stateful_sets_stored": 120, "sets_with_non_ascii_identifiers": 400}},
+                              "stateful_sets_stored": 120, "sets_with_non_ascii_identifiers": 400,
+                              "rebuild_histories": 700, "rebuild_compares": 5000, "rebuild_mode_dir": 200,
+                              "rebuild_mode_deflated": 200, "rebuild_mode_stored": 200,
+                              "rebuild_edit_mtime_back": 400, "rebuild_edit_mtime_equal": 400,
+                              "lookalike_name_compares": 18000}},
 }
 
 _n = 0
@@ -102,8 +118,7 @@ def check_case(ctx, case, mode, is_async, tmp):
     import jinja2
 
     src_env = corpus.make_env(case, enable_async=is_async)
-    # a fresh target per case: zipimport and importlib cache directory
-    # listings per path, and real users do not overwrite a compiled set in place
+    # a fresh target per case here; rebuilding a compiled set in place is check_rebuild's history
     global _n
     _n += 1
     target = os.path.join(tmp, f"out{_n}.zip" if mode != "dir" else f"outdir{_n}")
